@@ -11,6 +11,11 @@ CLAIMED = {
             "Generated-input search: box layouts (all size forms, jxlc/jxlp splits, raw and brob aux boxes, ten ill-formed constructions) and chunkings are generated; the parser's event stream must equal an independently written model and ill-formed layouts must be rejected for every feed pattern. Exploration is the right level: the property quantifies over unbounded layouts/chunkings and the oracle is exact.",
             "Trusted: the model of the container grammar in jxlref::container (written from ISO/IEC 18181-2), stored-block Brotli writer. brob decompression of compressed meta-blocks is delegated to brotli-decompressor.",
             "DESIGN.md §4 C10"),
+    "C14": ("exploration",
+            "round-trip PBT: independent header writer with generated field values and generated (non-canonical) encodings -> Bundle::parse, field-wise equality + exact bit position",
+            "Generated-input search over the conditional layout of ImageHeader / FrameHeader / TOC: every field combination the generator can express is written by an independent writer (any legal U32 selector, any U64 form incl. 64-bit tail, arbitrary finite F16 patterns, all_default/div8/ratio shortcuts chosen at random) and the decoder must report exactly the written values and stop at exactly the written bit.",
+            "Trusted: jxlref::headers (my reading of ISO/IEC 18181-1 Annex A/C); two spec/libjxl ambiguities are excluded by construction and listed in the evidence assumptions.",
+            "DESIGN.md §4 C14"),
 }
 
 PENDING_REASON = "not claimed yet: machinery for this property is still being built in this work session (see DESIGN.md §8 build order); the technique applies"
